@@ -12,7 +12,9 @@ by kernel steps (`KReach`) from a state that satisfies the invariant `Once.Inv0`
 starting processes from outside keeps it: `Once.Inv0.init`, `Once.Inv0.spawn`), under the domain hypothesis
 `Once.SafeRun` (DESIGN §3): every `succeed()`/`fail()` the run executes targets an existing plain event or condition
 (or an already triggered event, which is refused), and every `yield` names an existing event that is not an
-`Interruption` aimed at the yielding process.  `Once.SafeProg` is a sufficient condition on the program text.
+`Interruption` aimed at the yielding process.  `Once.SafeProg` is a sufficient condition on the program text, and
+`Once.SafeStep` is decidable, so the hypothesis can be evaluated for a concrete run (`Once.SafeUpTo`).
+`Once.NoHangRun` ("no `_resume` loop runs out of fuel") is needed only where it is named.
 Without the hypothesis the model reproduces the double scheduling of the real kernel (examples at the end).
 -/
 
